@@ -90,10 +90,10 @@ def apply_op(op, acts, fin, n_nodes, depot_env, i, j):
     return t
 
 
-def run_checker(env, td1, cand):
+def run_checker(env, td1, cand, clone=True):
     acts = torch.tensor([cand], dtype=torch.long)
     try:
-        env.check_solution_validity(td1.clone(), acts)
+        env.check_solution_validity(td1.clone() if clone else td1, acts)
         return None
     except AssertionError:
         return "AssertionError"
@@ -116,6 +116,10 @@ def execute(case, ctx):
     for b in range(len(insts)):
         n_nodes = ep.masks[0][b].shape[0]
         fin = ep.finish_step(b)
+        # one tensordict per row that is handed to the checker again and again WITHOUT cloning (a checker only reads):
+        # the verdict on it must be the verdict on a fresh copy, whatever was checked on it before
+        used_td = td0[b:b + 1].clone()
+        n_used = 0
         for (op, i, j) in case["ops"]:
             cand = apply_op(op, A[b].tolist(), fin, n_nodes, depot_env, i, j)
             if not cand or min(cand) < 0 or max(cand) >= n_nodes:
@@ -141,6 +145,14 @@ def execute(case, ctx):
                 continue
             raised = run_checker(env, td0[b:b + 1], cand)
             det = {"row": b, "op": op, "candidate": cand, "instance": insts[b], "oracle": v.viol[:3], "raised": raised}
+            raised_used = run_checker(env, used_td, cand, clone=False)
+            if (raised is None) != (raised_used is None):
+                ctx.violation(f"{name}|{sl}|checker_verdict_depends_on_earlier_checks|{cls}",
+                              f"checker says {raised or 'valid'} on a fresh copy of the instance but {raised_used or 'valid'} on "
+                              f"a tensordict on which {n_used} solutions were checked before: {cand}", det)
+            n_used += 1
+            if n_used >= 2:
+                ctx.event("reused_td_checks")
             if cls == "feasible" and raised is not None:
                 ctx.violation(f"{name}|{sl}|checker_rejects_feasible|{op}", f"checker raised {raised} on a feasible solution {cand}", det)
             if cls == "infeasible":
